@@ -228,6 +228,23 @@ func diffSets(a, b map[string]rec) string {
 	return strings.Join(what, "+")
 }
 
+// names whose record differs between the two sets (hex), for the oracle's detail field
+func diffNames(a, b map[string]rec) string {
+	var ns []string
+	for n, ra := range a {
+		if rb, ok := b[n]; !ok || ra != rb {
+			ns = append(ns, vh.HexS(n))
+		}
+	}
+	for n := range b {
+		if _, ok := a[n]; !ok {
+			ns = append(ns, vh.HexS(n))
+		}
+	}
+	sort.Strings(ns)
+	return strings.Join(ns, ",")
+}
+
 type snap struct {
 	listing string
 	hash    [2]string // self=false,true
@@ -244,7 +261,7 @@ func checkPair(m *modCfg, a, b *snap, o *vh.Out, info string) {
 		}
 		line := fmt.Sprintf("%s\t%s\t%s\t%s", head("c36pair", s == 1, m), a.listing, b.listing, info)
 		if same {
-			o.Oracle("hash-unchanged-but-"+d, line, a.op+" .. "+b.op)
+			o.Oracle("hash-unchanged-but-"+d, line, a.op+" .. "+b.op+" differing: "+diffNames(a.set, b.set))
 		} else {
 			o.Oracle("hash-changed-but-relevant-files-same", line, a.op+" .. "+b.op)
 		}
@@ -472,7 +489,8 @@ func (h *hist) step(r *vh.Rand) string {
 	case k < 90: // symlink (a non-directory entry; Info() is lstat)
 		n := genName(r)
 		h.names[n] = true
-		target := r.Pick([]string{"a.go", "nonexistent", ".", "x.txt"})
+		target := r.Pick([]string{"a.go", "nonexistent.go", "x.txt"})
+		h.names[target] = true // a later write through the link creates the target in this directory
 		if os.Symlink(target, p(n)) != nil {
 			return ""
 		}
